@@ -35,6 +35,8 @@ def derivative_monitors(run):
         return rnd.choice([-1, 1]) * 10 ** rnd.uniform(-2, 4)
 
     def rp(kind):
+        if kind in ('R2', 'R3'):
+            return (PoseR2 if kind == 'R2' else PoseR3)([mag() for _ in range(B.DIM[kind])])
         if kind == 'SE2':
             return PoseSE2([mag(), mag()], heading())
         ax = np.array([rnd.gauss(0, 1) for _ in range(3)])
@@ -46,6 +48,8 @@ def derivative_monitors(run):
     for n in range(n_runs):
         kind = 'SE2' if n % 2 == 0 else 'SE3'
         fam = 'odo' if n % 4 < 2 else 'lm'
+        if n % 10 == 9:
+            kind = 'R2' if (n // 10) % 2 else 'R3'          # (point observers too: R^n odometry and R^n -> R^n landmark edges)
         p1, p2 = rp(kind), rp(kind)
         if n % 8 >= 6:
             # both vertices FAR from the origin and CLOSE to each other (geocentric / UTM-like coordinates, poses metres apart)
@@ -56,11 +60,14 @@ def derivative_monitors(run):
         if fam == 'odo':
             v1, v2 = Vertex(1, p1), Vertex(2, p2)
             small = rp(kind)
-            small = type(small)(np.asarray(small)[:B.DIM[kind]] * 1e-3, np.asarray(small)[B.DIM[kind]:] if kind == 'SE3' else 0.3 * rnd.uniform(-1, 1))
+            if kind in ('R2', 'R3'):
+                small = type(small)(np.asarray(small) * 1e-3)
+            else:
+                small = type(small)(np.asarray(small)[:B.DIM[kind]] * 1e-3, np.asarray(small)[B.DIM[kind]:] if kind == 'SE3' else 0.3 * rnd.uniform(-1, 1))
             z = (p2 - p1) + small                      # a measurement near the current relative pose (no half-turn / +-pi errors)
             e = EdgeOdometry([1, 2], np.eye(B.CDIM[kind]), z, [v1, v2])
         else:
-            P = PoseR2 if kind == 'SE2' else PoseR3
+            P = PoseR2 if kind in ('SE2', 'R2') else PoseR3
             v1, v2 = Vertex(1, p1), Vertex(2, P(np.asarray(p2)[:B.DIM[kind]] if n % 8 >= 6 else [mag() for _ in range(B.DIM[kind])]))
             e = EdgeLandmark([1, 2], np.eye(B.DIM[kind]), P([mag() for _ in range(B.DIM[kind])]), rp(kind), vertices=[v1, v2])
         S = 1.0 + max(float(np.max(np.abs(np.asarray(v.pose)[:B.DIM[kind]]))) for v in (v1, v2))
@@ -101,9 +108,57 @@ def derivative_monitors(run):
     run.notes['derivative_monitor_max_deviation_over_scale'] = worst
 
 
+def translation_invariance(run):
+    """Invariance as an oracle where no exact model reaches: an odometry edge depends on the DIFFERENCE of its vertices' positions, so its
+    Jacobians are the same in a frame translated by 2^40 -- exactly, when the coordinates are dyadic (multiples of 2^-10) so that the shifted
+    coordinates and their differences are exact floats.  (A formula that subtracts products of the large coordinates loses the lever arm.)"""
+    import random
+    from graphslam.edge.edge_odometry import EdgeOdometry
+    from graphslam.pose.se2 import PoseSE2
+    from graphslam.pose.se3 import PoseSE3
+    from graphslam.pose.r2 import PoseR2
+    from graphslam.pose.r3 import PoseR3
+    from graphslam.vertex import Vertex
+    from .. import build as B
+    rnd = random.Random(run.seed + 71)
+    n = 0
+
+    def dy(d):
+        return np.array([rnd.randint(-20000, 20000) / 1024.0 for _ in range(d)])
+    for it in range(150):
+        for kind in ('SE2', 'SE3', 'R2', 'R3'):
+            d = B.DIM[kind]
+
+            def rp(t):
+                if kind == 'SE2':
+                    return PoseSE2(t, rnd.uniform(-3.1, 3.1))
+                if kind == 'SE3':
+                    q = np.array([rnd.gauss(0, 1) for _ in range(4)])
+                    return PoseSE3(t, q / np.linalg.norm(q))
+                return (PoseR2 if d == 2 else PoseR3)(t)
+            t1, t2 = dy(d), dy(d)
+            p1, p2, z = rp(t1), rp(t2), rp(dy(d))
+            res = []
+            for sh in (np.zeros(d), np.array([2.0 ** 40, -(2.0 ** 40), 2.0 ** 39][:d])):
+                a, b = p1.copy(), p2.copy()
+                a[:d] = t1 + sh
+                b[:d] = t2 + sh
+                e = EdgeOdometry([1, 2], np.eye(B.CDIM[kind]), z, [Vertex(1, a), Vertex(2, b)])
+                res.append(([np.asarray(J, dtype=float) for J in e.calc_jacobians()], np.asarray(e.calc_error(), dtype=float)))
+            dv = max(float(np.max(np.abs(x - y))) for x, y in zip(res[0][0], res[1][0]))
+            de = float(np.max(np.abs(res[0][1] - res[1][1])))
+            n += 1
+            run.count(key=('translation-invariance', kind, it), nontrivial=True)
+            if dv > 1e-9 or de > 1e-9:
+                run.violation(dict(part='translation-invariance', fam='odo', k=kind), 'odometry edge moved by 2^40 (dyadic coordinates, exact differences): Jacobians change by %.3g, error by %.3g | p1=%r p2=%r' % (
+                    dv, de, np.asarray(p1).tolist(), np.asarray(p2).tolist()), dict(p1=np.asarray(p1).tolist(), p2=np.asarray(p2).tolist(), z=np.asarray(z).tolist()))
+    run.notes['translation_invariance_cases'] = n
+
+
 def check(run, cases=None):
     if cases is None:
         derivative_monitors(run)
+        translation_invariance(run)
     cases = cases if cases is not None else EC.gen_cases(run.tier, run.seed, with_chi2=False)
     pairs = EC.evaluate(cases, 12, 'MC_C01', run)
     run.rule = ('lattice edge cases (families: odometry R2/R3/SE2/SE3, landmark SE2->R2, SE3->R3, Rn->Rn with offsets) generated from VERIF_SEED; '
